@@ -14,6 +14,7 @@ import multiprocessing
 import os
 import random
 import re
+import shutil
 
 from marshmallow import ValidationError
 
@@ -397,18 +398,41 @@ def check(prop: str) -> int:
 
 
 def replay(doc: dict) -> int:
+    """Re-run the case through the real codec on the current tree; the verdict is the comparison with the
+    expectation TLC computed (enumerated cases) or a fresh judgement by TLC (recorded random cases)."""
     common.enter_scratch()
     c = doc["case"]
     loop = asyncio.new_event_loop()
+    work = tlc.scratch()
     try:
+        tlc.stage(work)
         proto = c.get("proto", "2.2")
-        if "msg" in c and c.get("msg") and (c.get("path") in ("dump", "send") or c.get("kind") == "encode"):
-            got = real_dump(proto, c["msg"])
-            print("dump ->", json.dumps(got), "| send ->", json.dumps(real_send(loop, proto, c["msg"])))
-        else:
-            line = text(c["line"])
-            print("load ->", json.dumps(real_load(proto, line)), "| listen ->", json.dumps(real_listen(loop, proto, line, real_load(proto, line))))
-        print("expected / previously observed:", json.dumps({k: c[k] for k in c if k in ("expected", "expected_line", "res", "got")}))
+        if "path" in c:      # an enumerated case: expected result known
+            if c["path"] in ("dump", "send"):
+                got = real_dump(proto, c["msg"]) if c["path"] == "dump" else real_send(loop, proto, c["msg"])
+                ok = got == {"k": "line", "line": c["expected_line"]}
+            else:
+                line = text(c["line"])
+                exp = c["expected"]
+                got = real_load(proto, line) if c["path"] == "load" else real_listen(loop, proto, line, exp)
+                ok = (got["k"] in ("msg", "invalid", "accepted")) if exp["k"] == "gray" else \
+                     (got == exp or (c["path"] == "listen" and got == {"k": "accepted"}) or (exp["k"] == "invalid" and got == {"k": "invalid"}))
+            print(c["path"], "->", json.dumps(got)[:300], "| expected", json.dumps(c.get("expected", c.get("expected_line")))[:300])
+        else:                # a recorded random case: judged by TLC again
+            if c["kind"] == "decode":
+                line = text(c["line"])
+                res = real_load(proto, line)
+                case = dict(c, res=res)
+            else:
+                case = dict(c, res=real_dump(proto, c["msg"]))
+            print(c["kind"], "->", json.dumps(case["res"])[:300])
+            rejected, _ = _validate_random([case], work, 1)
+            ok = not rejected
+        if not ok:
+            print(f"VIOLATION property={doc.get('property')} replay=(this file)")
+            return 1
+        print("the real codec agrees with Codec.tla on this case")
+        return 0
     finally:
         loop.close()
-    return 0
+        shutil.rmtree(work, ignore_errors=True)
